@@ -2,6 +2,7 @@ package main
 
 import (
 	"fmt"
+	"os"
 	"go/types"
 	"runtime/debug"
 	"strings"
@@ -130,6 +131,9 @@ func (e *Engine) VerifyFunc(fn *ssa.Function, spec *FuncSpec, lockMode bool) (re
 				res.Unsupported = x.msg
 			case specError:
 				res.SpecError = x.msg
+				if os.Getenv("GOVC_DEBUG") != "" {
+					res.SpecError += "\n" + string(debug.Stack())
+				}
 			default:
 				res.Unsupported = fmt.Sprintf("engine panic: %v\n%s", r, debug.Stack())
 			}
@@ -184,6 +188,7 @@ func (e *Engine) VerifyFunc(fn *ssa.Function, spec *FuncSpec, lockMode bool) (re
 		res.Observes = append(res.Observes, ObserveTerm{Name: name, Term: c, Sort: srt})
 		return v
 	}
+	res.Observes = append(res.Observes, ObserveTerm{Name: "$null", Term: "null", Sort: SRef})
 	for i, p := range fn.Params {
 		v := declare(p.Name(), p.Type(), i)
 		a.vals[p] = v
